@@ -74,11 +74,12 @@ class NsRun:
     def build(self):
         self.drive = vlib.build_driver(self.sc)
 
-    def generate(self, profile, maxlen, name):
+    def generate(self, profile, maxlen, name, names3=False, workers=None):
         edges = self.sc.path("edges-%s.ndjson" % name)
-        r = vlib.run_tlc(self.sc, "MCns", "MCns.cfg", name="gen-" + name,
-                         env={"VERIF_MAXLEN": maxlen, "VERIF_PROFILE": profile, "VERIF_EDGES": edges}, timeout=3000,
-                         heap="12g")
+        env = {"VERIF_MAXLEN": maxlen, "VERIF_PROFILE": profile, "VERIF_EDGES": edges}
+        if names3:
+            env["VERIF_NAMES"] = "3"
+        r = vlib.run_tlc(self.sc, "MCns", "MCns.cfg", name="gen-" + name, env=env, timeout=3000, heap="12g", workers=workers)
         if not r["ok"]:
             raise Infra("the reference specification violates its own invariants (%s L=%s):\n%s" %
                         (profile, maxlen, r["out"][-3000:]))
